@@ -32,3 +32,15 @@ package lib
 //@   ensures result != nil
 //@ func ReleaseTimer
 //@   trusted
+
+// compressors: on success a fresh buffer holding `preallocate` reserved bytes followed by the
+// compressed data (compress/* itself is A-STDLIB)
+//@ func CompressZLIB
+//@   trusted
+//@   ensures result.1 == nil ==> result.0 != nil && fresh(result.0) && fresh(result.0.B) && len(result.0.B) >= 9
+//@ func CompressLZW
+//@   trusted
+//@   ensures result.1 == nil ==> result.0 != nil && fresh(result.0) && fresh(result.0.B) && len(result.0.B) >= 9
+//@ func CompressGZIP
+//@   trusted
+//@   ensures result.1 == nil ==> result.0 != nil && fresh(result.0) && fresh(result.0.B) && len(result.0.B) >= 9
